@@ -29,7 +29,14 @@ import (
 type Rand struct{ s uint64 }
 
 // NewRand seeds a generator.
-func NewRand(seed uint64) *Rand { return &Rand{s: seed*0x9E3779B97F4A7C15 + 0x1234567} }
+// The seed is scrambled first so that consecutive seeds give unrelated streams
+// (workers use seed*1000+w).
+func NewRand(seed uint64) *Rand {
+	z := seed + 0x9E3779B97F4A7C15
+	z = (z ^ (z >> 30)) * 0xBF58476D1CE4E5B9
+	z = (z ^ (z >> 27)) * 0x94D049BB133111EB
+	return &Rand{s: z ^ (z >> 31)}
+}
 
 // U64 returns the next 64 random bits.
 func (r *Rand) U64() uint64 {
